@@ -113,7 +113,8 @@ def gen_concurrent_plan(rng, i: int, tier: str) -> dict:
 
     hash_name = offline.HASHES[i % 4]
     secret = offline.SECRETS[(i // 4) % 3]
-    sid = offline.sid_shape(1 + i % 15, i // 15)
+    # (a principal no earlier case of the process has dealt with: its first use happens here)
+    sid = offline.sid_shape(1 + i % 14, i) + "-%d" % (50000 + i)
     l0 = rng.randrange(330, 480)
     ft = (l0 * 1024 + rng.randrange(0, 700)) * B + rng.randrange(B)
     kind = ("threads", "async")[i % 2]
@@ -147,7 +148,8 @@ def gen_concurrent_plan(rng, i: int, tier: str) -> dict:
                     "sid": sid, "rk": 0 if offline_p else rng.choice((0, None)), "net": "offline" if offline_p else "online", "data": rng.choice((0, 7, 33))})
         prot_idx.append(len(ops) - 1)
     if kind == "threads":
-        plan["threads"] = threadpure.policy_for(i)
+        # (half of them pre-empt at / right after lines that touch process-wide state, where a first use by two threads collides)
+        plan["threads"] = threadpure.policy_for(i) if (i // 2) % 2 else {"mode": "marks", "q": (0.3, 0.6, 0.9, 1.0)[(i // 4) % 4], "p": (0.0, 0.01)[(i // 16) % 2]}
         for k in prot_idx:
             ops.append({"op": "unprotect", "fl": rng.choice(("sync", "async")), "net": "offline" if offline_p else "online", "blob": {"from_op": k, "relayout": False}})
     else:
@@ -277,7 +279,7 @@ class C01(common.Check):
         n = 2400 if tier == "quick" else 120000
         rng2 = prng.stream(seed, "C01", "concurrent")
         rng3 = prng.stream(seed, "C01", "process-history")
-        return [gen_plan(rng, i, tier) for i in range(n)] + [gen_concurrent_plan(rng2, i, tier) for i in range(400 if tier == "quick" else 20000)] + \
+        return [gen_plan(rng, i, tier) for i in range(n)] + [gen_concurrent_plan(rng2, i, tier) for i in range(700 if tier == "quick" else 30000)] + \
             [gen_process_history_plan(rng3, i, tier) for i in range(300 if tier == "quick" else 15000)]
 
     def run_case(self, case):
